@@ -4,14 +4,6 @@ From Coq Require Import List Arith Bool Lia Ring Field.
 From Core Require Import C14_Model C14_Proofs.
 Import ListNotations.
 
-Section Sums.
-Context {C V : Type} (o : kops C V).
-Fixpoint csum (n : nat) (f : nat -> C) : C := match n with 0 => o.(c0) | S k => o.(cadd) (csum k f) (f k) end.
-(* sum_a c_a q_a  (a matrix-vector product Q c) *)
-Fixpoint vcomb (n : nat) (c : nat -> C) (q : nat -> V) : V :=
-  match n with 0 => o.(vzero) | S k => o.(vadd) (vcomb k c q) (o.(vscale) (c k) (q k)) end.
-End Sums.
-
 Section Thms.
 Context {C V : Type} (o : kops C V) (A : V -> V) (nonneg : C -> Prop) (L : klaws o A nonneg).
 Declare Scope K_scope.
@@ -66,6 +58,72 @@ Proof. unfold Tent. brk; subst; reflexivity. Qed.
 Lemma Tent_band (r : @lres C V) a b : (S a < b \/ S b < a)%nat -> Tent o r a b = 0.
 Proof. intros H. unfold Tent. brk; reflexivity. Qed.
 
+
+(* ---------- spans, weakly: a functional phi lies in span(F_0..F_{j-1}) ---------- *)
+Definition SpanF (F : nat -> V) (j : nat) (phi : V -> C) : Prop :=
+  exists c : nat -> C, forall u, phi u = csum o j (fun t => c t * dot u (F t)).
+Definition InSpan (F : nat -> V) (j : nat) (x : V) : Prop := SpanF F j (fun u => dot u x).
+
+Lemma csum_trunc j j' f : (j <= j')%nat -> (forall t, (j <= t < j')%nat -> f t = 0) -> csum o j' f = csum o j f.
+Proof. induction j'; intros Hj Hz.
+  - assert (j = 0%nat) by lia. subst. reflexivity.
+  - destruct (Nat.eq_dec j (S j')) as [->|Hne]; [reflexivity|]. simpl. rewrite IHj'; [|lia|intros; apply Hz; lia].
+    rewrite (Hz j') by lia. ring. Qed.
+Lemma csum_shift' n f : csum o (S n) f = f 0%nat + csum o n (fun i => f (S i)).
+Proof. induction n; [simpl; ring|]. change (csum o (S (S n)) f) with (csum o (S n) f + f (S n)). rewrite IHn. simpl. ring. Qed.
+Lemma spanF_ext F j phi psi : (forall u, phi u = psi u) -> SpanF F j psi -> SpanF F j phi.
+Proof. intros E (c & Hc). exists c. intros u. rewrite E. apply Hc. Qed.
+Lemma spanF_mono F j j' phi : (j <= j')%nat -> SpanF F j phi -> SpanF F j' phi.
+Proof. intros Hj (c & Hc). exists (fun t => if t <? j then c t else 0). intros u. rewrite Hc.
+  rewrite (csum_trunc j j'); [|lia|intros t Ht; destruct (Nat.ltb_spec t j); [lia|ring]].
+  apply csum_ext. intros t Ht. destruct (Nat.ltb_spec t j); [reflexivity|lia]. Qed.
+Lemma spanF_lin F j al be phi1 phi2 : SpanF F j phi1 -> SpanF F j phi2 -> SpanF F j (fun u => al * phi1 u + be * phi2 u).
+Proof. intros (c1 & H1) (c2 & H2). exists (fun t => al * c1 t + be * c2 t). intros u. rewrite H1, H2.
+  rewrite <- !csum_mul_l, <- csum_add. apply csum_ext. intros; ring. Qed.
+Lemma spanF_zero F j : SpanF F j (fun _ => 0).
+Proof. exists (fun _ => 0). intros u. rewrite (csum_ext j _ (fun _ => 0)) by (intros; ring). symmetry. apply csum_zero. Qed.
+Lemma spanF_csum F j m c (phis : nat -> V -> C) : (forall a, (a < m)%nat -> SpanF F j (phis a)) ->
+  SpanF F j (fun u => csum o m (fun a => c a * phis a u)).
+Proof. induction m; intros H; simpl; [apply spanF_zero|].
+  apply (spanF_ext F j _ (fun u => 1 * csum o m (fun a => c a * phis a u) + c m * phis m u)); [intros; ring|].
+  apply spanF_lin; [apply IHm; intros; apply H; lia|apply H; lia]. Qed.
+Lemma spanF_gen F j t : (t < j)%nat -> SpanF F j (fun u => dot u (F t)).
+Proof. intros Ht. exists (fun t' => if t =? t' then 1 else 0). intros u.
+  rewrite (csum_ext j _ (fun t' => dot u (F t') * (if t =? t' then 1 else 0))) by (intros; ring).
+  symmetry. apply csum_delta. exact Ht. Qed.
+
+(* powers of A and the Krylov sequence *)
+Fixpoint Apow (t : nat) (x : V) : V := match t with 0%nat => x | S t' => A (Apow t' x) end.
+Lemma krylov_A v j x : SpanF (fun t => Apow t v) j (fun u => dot u x) -> SpanF (fun t => Apow t v) (S j) (fun u => dot u (A x)).
+Proof. intros (c & Hc). exists (fun t => match t with 0%nat => 0 | S t' => c t' end). intros u.
+  rewrite (k_A_sa _ _ _ L), Hc, csum_shift'.
+  rewrite (csum_ext j _ (fun i => c i * dot u (Apow (S i) v))) by (intros; cbn [Apow]; rewrite <- (k_A_sa _ _ _ L); reflexivity).
+  ring. Qed.
+
+(* the specification of one returned factorisation r = (Q, off-diagonal, diagonal) for the start vector v;
+   T is the dense matrix of Tridiagonal(off, diag, off), w the pending vector (beta_k = ||w||) *)
+Definition lres_facts (r : @lres C V) (v : V) (n max_iters : nat) (w : V) : Prop :=
+  let k := length (rQ r) in
+  let Q := fun a : nat => nth a (rQ r) o.(vzero) in
+  let T := Tent o r in
+  (1 <= k <= Nat.min max_iters n)%nat /\
+  length (rdiag r) = k /\ length (roff r) = (k - 1)%nat /\
+  (forall u, dot u (Q 0%nat) = dot u v / nrm v) /\
+  (forall a b, (a < k)%nat -> (b < k)%nat -> dot (Q a) (Q b) = if a =? b then 1 else 0) /\
+  (forall a, (a < k)%nat -> dot (Q a) w = 0) /\
+  (forall b, (b < k)%nat -> forall u,
+     dot u (A (Q b)) = csum o k (fun a => T a b * dot u (Q a)) + (if S b =? k then dot u w else 0)) /\
+  (forall a b, (a < k)%nat -> (b < k)%nat -> dot (Q a) (A (Q b)) = T a b) /\
+  (forall a b, (a < k)%nat -> (b < k)%nat -> conj (T a b) = T a b) /\
+  (forall a b, T a b = T b a) /\
+  (forall a b, (S a < b \/ S b < a)%nat -> T a b = 0) /\
+  (forall a, (S a < k)%nat -> nonneg (T a (S a)) /\ T a (S a) <> 0).
+Definition lres_krylov (r : @lres C V) (v : V) : Prop :=
+  let k := length (rQ r) in
+  let Q := fun a : nat => nth a (rQ r) o.(vzero) in
+  (forall a, (a < k)%nat -> InSpan (fun t => Apow t v) (S a) (Q a)) /\
+  (forall t, (t < k)%nat -> InSpan Q (S t) (Apow t v)).
+
 Section Run.
 Variables (tol : C) (v : V) (n max_iters : nat).
 Hypothesis tol_nonneg : nonneg tol.
@@ -78,19 +136,23 @@ Let Q (a : nat) : V := nth a (rQ r) o.(vzero).
 Let T := Tent o r.
 
 (* everything the property says about one run, in one statement (w = the pending vector V[k+1], beta_k = ||w||) *)
-Definition lanczos_facts (w : V) : Prop :=
-  (1 <= k <= Nat.min max_iters n)%nat /\
-  length (rdiag r) = k /\ length (roff r) = (k - 1)%nat /\
-  (forall u, dot u (Q 0) = dot u v / nrm v) /\
-  (forall a b, (a < k)%nat -> (b < k)%nat -> dot (Q a) (Q b) = if a =? b then 1 else 0) /\
-  (forall a, (a < k)%nat -> dot (Q a) w = 0) /\
-  (forall b, (b < k)%nat -> forall u,
-     dot u (A (Q b)) = csum o k (fun a => T a b * dot u (Q a)) + (if S b =? k then dot u w else 0)) /\
-  (forall a b, (a < k)%nat -> (b < k)%nat -> dot (Q a) (A (Q b)) = T a b) /\
-  (forall a b, (a < k)%nat -> (b < k)%nat -> conj (T a b) = T a b) /\
-  (forall a b, T a b = T b a) /\
-  (forall a b, (S a < b \/ S b < a)%nat -> T a b = 0) /\
-  (forall a, (S a < k)%nat -> nonneg (T a (S a))).
+Definition lanczos_facts (w : V) : Prop := lres_facts r v n max_iters w.
+
+Definition facts_explicit (w : V) : Prop :=
+    (1 <= k <= Nat.min max_iters n)%nat /\
+    length (rdiag r) = k /\ length (roff r) = (k - 1)%nat /\
+    (forall u, dot u (Q 0%nat) = dot u v / nrm v) /\
+    (forall a b, (a < k)%nat -> (b < k)%nat -> dot (Q a) (Q b) = if a =? b then 1 else 0) /\
+    (forall a, (a < k)%nat -> dot (Q a) w = 0) /\
+    (forall b, (b < k)%nat -> forall u,
+       dot u (A (Q b)) = csum o k (fun a => T a b * dot u (Q a)) + (if S b =? k then dot u w else 0)) /\
+    (forall a b, (a < k)%nat -> (b < k)%nat -> dot (Q a) (A (Q b)) = T a b) /\
+    (forall a b, (a < k)%nat -> (b < k)%nat -> conj (T a b) = T a b) /\
+    (forall a b, T a b = T b a) /\
+    (forall a b, (S a < b \/ S b < a)%nat -> T a b = 0) /\
+    (forall a, (S a < k)%nat -> nonneg (T a (S a)) /\ T a (S a) <> 0).
+Lemma facts_unfold w : lanczos_facts w -> facts_explicit w.
+Proof. exact (fun x => x). Qed.
 
 Theorem lanczos_run : exists w, lanczos_facts w.
 Proof.
@@ -104,9 +166,10 @@ Proof.
           + (if b =? 0 then 0 else ent o (roff r) (b - 1) * dot u (Q (b - 1)%nat))
           + (if S b <? k then ent o (roff r) b * dot u (Q (S b)) else dot u w)) /\
     (forall a, (a < k)%nat -> conj (ent o (rdiag r) a) = ent o (rdiag r) a) /\
-    (forall a, (S a < k)%nat -> exists x, ent o (roff r) a = nrm x))
+    (forall a, (S a < k)%nat -> exists x, ent o (roff r) a = nrm x) /\
+    (forall a, (S a < k)%nat -> ent o (roff r) a <> 0))
     by exact (lanczos1_spec o A nonneg L tol tol_nonneg v v_nz n max_iters n_pos mi_pos).
-  destruct H as (w & Hk & Hld & Hlo & Hfirst & Hon & Hpo & Hrel & Hdr & Hoff).
+  destruct H as (w & Hk & Hld & Hlo & Hfirst & Hon & Hpo & Hrel & Hdr & Hoff & Hnz).
   assert (Hmat : forall b, (b < k)%nat -> forall u,
      dot u (A (Q b)) = csum o k (fun a => T a b * dot u (Q a)) + (if S b =? k then dot u w else 0)).
   { intros b Hb u. rewrite (Hrel b Hb u). unfold T. rewrite tri_sum.
@@ -126,21 +189,24 @@ Proof.
     destruct (Nat.eqb_spec (S a) b); [destruct (Hoff a ltac:(lia)) as (x & ->); apply (k_nrm_real _ _ _ L)|].
     destruct (Nat.eqb_spec a (S b)); [destruct (Hoff b ltac:(lia)) as (x & ->); apply (k_nrm_real _ _ _ L)|].
     apply (k_conj_0 _ _ _ L). }
-  exists w. unfold lanczos_facts. split; [exact Hk|].
+  exists w.
+  enough (G : facts_explicit w) by exact G. unfold facts_explicit.
+  split; [exact Hk|].
   repeat match goal with |- _ /\ _ => split end; auto.
   - intros a b Ha Hb. rewrite (Hmat b Hb (Q a)).
     rewrite (csum_ext k _ (fun a' => T a' b * (if a =? a' then 1 else 0))) by (intros a' Ha'; rewrite Hon by assumption; reflexivity).
     rewrite csum_delta by exact Ha. rewrite Hpo by exact Ha. destruct (S b =? k); ring.
   - intros a b. apply Tent_sym.
   - intros a b H. apply Tent_band. exact H.
-  - intros a Ha. unfold T, Tent. destruct (Nat.eqb_spec a (S a)); [lia|]. rewrite Nat.eqb_refl.
-    destruct (Hoff a Ha) as (x & ->). apply (k_nrm_nonneg _ _ _ L).
+  - intros a Ha. unfold T, Tent. destruct (Nat.eqb_spec a (S a)); [lia|]. rewrite Nat.eqb_refl. split.
+    + destruct (Hoff a Ha) as (x & ->). apply (k_nrm_nonneg _ _ _ L).
+    + apply Hnz. exact Ha.
 Qed.
 
 (* early exit: beta_k = ||w|| = 0  ->  A Q = Q T exactly, i.e. span(Q) is A-invariant *)
 Theorem lanczos_invariant_subspace w : lanczos_facts w -> nrm w = 0 ->
   forall b, (b < k)%nat -> forall u, dot u (A (Q b)) = dot u (vcomb o k (fun a => T a b) Q).
-Proof. intros F Hw b Hb u. destruct F as (_ & _ & _ & _ & _ & _ & Hmat & _).
+Proof. intros F Hw b Hb u. apply facts_unfold in F. unfold facts_explicit in F. destruct F as (_ & _ & _ & _ & _ & _ & Hmat & _).
   rewrite (Hmat b Hb u), dot_vcomb. rewrite (k_nrm_zero _ _ _ L w Hw u). destruct (S b =? k); ring. Qed.
 
 (* Ritz pairs (lanczos_eigs): if (theta, S) is an eigen-decomposition of T (the eigh oracle: T S = S diag(theta)) then
@@ -150,7 +216,7 @@ Theorem lanczos_ritz w (theta : nat -> C) (Y : nat -> nat -> C) :
   (forall a j, (a < k)%nat -> (j < k)%nat -> csum o k (fun c => T a c * Y c j) = theta j * Y a j) ->
   forall j, (j < k)%nat -> forall u,
     dot u (A (vcomb o k (fun a => Y a j) Q)) = theta j * dot u (vcomb o k (fun a => Y a j) Q) + Y (k - 1)%nat j * dot u w.
-Proof. intros F HY j Hj u. destruct F as (Hk & _ & _ & _ & _ & _ & Hmat & _).
+Proof. intros F HY j Hj u. apply facts_unfold in F. unfold facts_explicit in F. destruct F as (Hk & _ & _ & _ & _ & _ & Hmat & _).
   rewrite (k_A_sa _ _ _ L), !dot_vcomb.
   rewrite (csum_ext k _ (fun b => csum o k (fun a => (T a b * Y b j) * dot u (Q a)) + (if S b =? k then Y b j * dot u w else 0))).
   2:{ intros b Hb. rewrite <- (k_A_sa _ _ _ L), (Hmat b Hb u).
@@ -165,6 +231,57 @@ Proof. intros F HY j Hj u. destruct F as (Hk & _ & _ & _ & _ & _ & Hmat & _).
   rewrite (csum_ext k _ (fun b => (Y b j * dot u w) * (if (k - 1)%nat =? b then 1 else 0))).
   2:{ intros b Hb. destruct (Nat.eqb_spec (S b) k), (Nat.eqb_spec (k - 1) b); try lia; ring. }
   rewrite csum_delta by lia. reflexivity.
+Qed.
+
+(* Krylov span: for every j <= k the first j columns and {v, A v, ..., A^(j-1) v} span the same space:
+   each column Q_a lies in K_(a+1), and each A^t v lies in span(Q_0..Q_t) *)
+Theorem lanczos_krylov w : lanczos_facts w -> lres_krylov r v.
+Proof.
+  intros F. enough (G : (forall a, (a < k)%nat -> InSpan (fun t => Apow t v) (S a) (Q a)) /\ (forall t, (t < k)%nat -> InSpan Q (S t) (Apow t v))) by exact G.
+  apply facts_unfold in F. unfold facts_explicit in F. destruct F as (Hk & _ & _ & Hfirst & Hon & Hpo & Hmat & _ & _ & Hsym & Hband & Hoff).
+  (* interior columns: A Q_b is a combination of Q_0..Q_(b+1) *)
+  assert (Hcol : forall b u, (S b < k)%nat -> dot u (A (Q b)) = csum o (S (S b)) (fun a => T a b * dot u (Q a))).
+  { intros b u Hb. rewrite (Hmat b ltac:(lia) u). destruct (Nat.eqb_spec (S b) k); [lia|].
+    rewrite (csum_trunc (S (S b)) k); [ring|lia|intros t Ht; rewrite Hband by (right; lia); ring]. }
+  split.
+  - intros a. induction a as [a IH] using lt_wf_ind. intros Ha. unfold InSpan.
+    destruct a as [|b].
+    + exists (fun _ => 1 / nrm v). intros u. rewrite Hfirst. simpl. cbn [Apow]. field. exact v_nz.
+    + destruct (Hoff b Ha) as [_ Hnz]. rewrite (Hsym b (S b)) in Hnz.
+      apply (spanF_ext _ _ _ (fun u => (1 / T (S b) b) * dot u (A (Q b)) + (- (1 / T (S b) b)) * csum o (S b) (fun a => T a b * dot u (Q a)))).
+      { intros u. rewrite (Hcol b u Ha). change (csum o (S (S b)) (fun a => T a b * dot u (Q a)))
+          with (csum o (S b) (fun a => T a b * dot u (Q a)) + T (S b) b * dot u (Q (S b))). field. exact Hnz. }
+      apply spanF_lin.
+      * apply krylov_A. apply (IH b); lia.
+      * apply spanF_csum. intros a Ha'. apply (spanF_mono _ (S a)); [lia|]. apply (IH a); lia.
+  - intros t. induction t as [|t IH]; intros Ht; unfold InSpan.
+    + exists (fun _ => nrm v). intros u. simpl. rewrite Hfirst. cbn [Apow]. field. exact v_nz.
+    + destruct (IH ltac:(lia)) as (c & Hc). cbn [Apow].
+      apply (spanF_ext _ _ _ (fun u => csum o (S t) (fun a => c a * dot u (A (Q a))))).
+      { intros u. rewrite (k_A_sa _ _ _ L), Hc. apply csum_ext. intros a Ha. rewrite <- (k_A_sa _ _ _ L). reflexivity. }
+      apply spanF_csum. intros a Ha.
+      apply (spanF_ext _ _ _ (fun u => csum o (S (S a)) (fun a' => T a' a * dot u (Q a')))); [intros u; apply Hcol; lia|].
+      apply (spanF_mono _ (S (S a))); [lia|]. exists (fun a' => T a' a). reflexivity.
+Qed.
+
+(* lanczos_eigs (model in C14_Model.v) with its two oracles: eigh returns an eigen-decomposition of T, argsort a sorting
+   permutation.  Then the returned values are ascending and every returned pair is a Ritz pair:
+   A y_j = theta_j y_j + Y[k-1, idx j] w  (an exact eigenpair of A when beta_k = ||w|| = 0) *)
+Theorem lanczos_eigs_spec w (cle : C -> C -> Prop)
+  (eigh : nat -> (nat -> nat -> C) -> (nat -> C) * (nat -> nat -> C)) (argsort : nat -> (nat -> C) -> nat -> nat) :
+  lanczos_facts w ->
+  (forall a j, (a < k)%nat -> (j < k)%nat ->
+     csum o k (fun c => T a c * snd (eigh k T) c j) = fst (eigh k T) j * snd (eigh k T) a j) ->        (* eigh: T Y = Y diag(theta) *)
+  (forall j, (j < k)%nat -> (argsort k (fst (eigh k T)) j < k)%nat) ->                                  (* argsort: indices in range *)
+  (forall i j, (i <= j < k)%nat -> cle (fst (eigh k T) (argsort k (fst (eigh k T)) i)) (fst (eigh k T) (argsort k (fst (eigh k T)) j))) ->   (* argsort: ascending *)
+  let out := lanczos_eigs o A false eigh argsort n v max_iters tol in
+  (forall i j, (i <= j < k)%nat -> cle (fst out i) (fst out j)) /\
+  (forall j, (j < k)%nat -> forall u,
+     dot u (A (snd out j)) = fst out j * dot u (snd out j) + snd (eigh k T) (k - 1)%nat (argsort k (fst (eigh k T)) j) * dot u w).
+Proof.
+  intros F Heig Hrange Hsorted. unfold lanczos_eigs. fold r. fold k. fold T.
+  destruct (eigh k T) as [theta Y] eqn:E. cbn [fst snd] in *. split; [exact Hsorted|].
+  intros j Hj u. apply (lanczos_ritz w theta Y F Heig (argsort k theta j) (Hrange j Hj) u).
 Qed.
 End Run.
 End Thms.
@@ -185,3 +302,28 @@ Proof.
   split; [lia|]. split; [rewrite map_length, lloop_len, map_length; reflexivity|].
   intros r Hr. apply in_map_iff in Hr as (s & <- & _). unfold ltrim; cbn [rQ rdiag roff].
   rewrite !firstn_length. lia. Qed.
+
+(* ---------- the full statement (every element of every batch of start vectors) and what is proved of it ---------- *)
+Definition C14_statement (batch_size : nat -> Prop) : Prop :=
+  forall (C V : Type) (o : kops C V) (A : V -> V) (nonneg : C -> Prop), klaws o A nonneg ->
+  forall (tol : C) (vs : list V) (n max_iters : nat), batch_size (length vs) ->
+  nonneg tol -> Forall (fun v => o.(vnrm) v <> o.(c0)) vs -> 1 <= n -> 1 <= max_iters ->
+  forall b r, nth_error (snd (lanczos_batch o A false n vs max_iters tol)) b = Some r ->
+  exists w, lres_facts o A nonneg r (nth b vs o.(vzero)) n max_iters w /\ lres_krylov o A r (nth b vs o.(vzero)).
+(* C14_full is NOT provable for the current code: an element of a batch whose Krylov space is exhausted keeps iterating while
+   another element continues (flag lanczos_batch_shared_stop; witness C14_Witness.batch_bad).  Proved: batches of one vector,
+   which is the 1-D start-vector path of lanczos(). *)
+Definition C14_full : Prop := C14_statement (fun _ => True).
+Theorem C14_single_start_partial : C14_statement (fun len => len = 1).
+Proof.
+  intros C V o A nonneg L tol vs n mi Hlen Htol Hv Hn Hmi b r Hb.
+  destruct vs as [|v [|? ?]]; try discriminate Hlen. inversion Hv as [|? ? Hvnz _]; subst.
+  pose proof (lanczos_batch_cols o A false n [v] mi tol) as (_ & Hl & _). cbn [length] in Hl.
+  assert (Er : r = lanczos1 o A false n v mi tol /\ b = 0).
+  { unfold lanczos1. destruct (snd (lanczos_batch o A false n [v] mi tol)) as [|x [|? ?]]; try discriminate Hl.
+    destruct b as [|[|b]]; simpl in Hb; try discriminate Hb. injection Hb as <-. auto. }
+  destruct Er as [-> ->]. cbn [nth].
+  destruct (lanczos_run o A nonneg L tol v n mi Htol Hvnz Hn Hmi) as (w & F).
+  exists w. split; [exact F|]. eapply lanczos_krylov; eauto.
+Qed.
+
